@@ -2,6 +2,7 @@
 
 Job = a seeded history of API calls over up to 4 msa slots (kalign(), kalign_read_input with 1-3 files,
 kalign_run with admissible and inadmissible types, kalign_write_msa, kalign_msa_compare, kalign_free_msa,
+reformat_settings_msa, kalign_check_msa,
 the CLI main), executed in ONE simulated process under a random schedule and heap garbage.  For every
 result-bearing call its *data slice* (the calls that built the objects and files it uses) is executed alone
 in a FRESH process of the same build with the default schedule and other heap garbage: the results must
@@ -10,7 +11,7 @@ import copy
 import gen, plans, oracles
 from sim import Plan
 
-RULE = 'each job = one generated history of 3-25 API calls over <= 4 msa slots and 2-3 record sets (call kinds A,R,X,W,C,F,CLI; thread counts, types incl. inadmissible ones, penalties and formats vary per call) + one fresh-process execution of the data slice of every result-bearing call; distinct_nontrivial = distinct (history hash) with at least two result-bearing calls and at least one earlier call that is NOT in the slice of a later one (so there is a history to be independent of)'
+RULE = 'each job = one generated history of 3-25 API calls over <= 4 msa slots and 2-3 record sets (call kinds A,R,X,W,C,F,CLI and reformat_settings_msa, kalign_check_msa; thread counts, types incl. inadmissible ones, penalties and formats vary per call) + one fresh-process execution of the data slice of every result-bearing call; distinct_nontrivial = distinct (history hash) with at least two result-bearing calls and at least one earlier call that is NOT in the slice of a later one (so there is a history to be independent of)'
 ASSUMPTIONS = ['a caller that checks return codes only frees an object after a call on it failed (slot guard)',
                'the reference for a call is its data slice in a fresh process of the same build variant with the all-defaults schedule',
                'simomp\'s own memory is outside the allocation accounting (the property excludes the OpenMP runtime\'s pool)']
@@ -34,6 +35,14 @@ def gen_spec(prop, rng, tier):
                 pos = rng.randrange(len(wl['seqs']) + 1)
                 wl['seqs'].insert(pos, ''); wl['names'].insert(pos, 'e')
             wl['names'] = ['%s.%d' % (nm.split('.')[0][:16], i) for i, nm in enumerate(wl['names'])]
+        if rng.random() < 0.12 and len(wl['names']) >= 2:
+            # records that share a name (with the same or with different residues): kalign_check_msa renames or
+            # rejects them, kalign_msa_compare refuses them
+            for _ in range(rng.randint(1, 2)):
+                a, b = rng.sample(range(len(wl['names'])), 2)
+                wl['names'][b] = wl['names'][a]
+                if rng.random() < 0.5:
+                    wl['seqs'][b] = wl['seqs'][a]
         sets.append(wl)
     files = {}
     for k, wl in enumerate(sets):
@@ -84,7 +93,7 @@ def gen_spec(prop, rng, tier):
             cands += ['C'] * 3
         cands += ['A'] * 2 + ['CLI'] * 1
         if readst or runst:
-            cands += ['F']
+            cands += ['F', 'M', 'V']
         k = rng.choice(cands)
         if k == 'R':
             s = rng.choice(empty); ks = rng.randrange(nsets)
@@ -123,6 +132,13 @@ def gen_spec(prop, rng, tier):
             s = rng.choice(failed or (readst + runst))
             ops.append({'k': 'F', 's': s})
             slots[s] = None
+        elif k == 'M':
+            # reformat_settings_msa: rename to SEQ<n> and/or drop the gaps of an object that has not been aligned here
+            s = rng.choice(readst + runst)
+            ops.append({'k': 'M', 's': s, 'rename': rng.choice([0, 1, 1]), 'unalign': rng.choice([0, 1]) if s in readst else 0})
+        elif k == 'V':
+            s = rng.choice(readst + runst)
+            ops.append({'k': 'V', 's': s, 'strict': rng.choice([0, 0, 1])})
         elif k == 'A':
             ks = rng.randrange(nsets); wl = sets[ks]
             ops.append({'k': 'A', 'set': ks, 'n': gen.thread_count(rng), 't': rand_type(wl), 'gp': rand_gp()})
@@ -156,6 +172,12 @@ def emit(p, spec, ops):
             idx.append(p.op_W(o['s'], o['path'], o['fmt']))
         elif k == 'C':
             idx.append(p.op_simple('C', o['a'], o['b']))
+        elif k == 'M':
+            idx.append(p.op_simple('M', o['s'], o['rename'], o['unalign']))
+            idx.append(p.op_simple('D', o['s']))
+        elif k == 'V':
+            idx.append(p.op_simple('V', o['s'], o['strict']))
+            idx.append(p.op_simple('D', o['s']))
         elif k == 'F':
             idx.append(p.op_simple('F', o['s']))
         elif k == 'A':
@@ -176,7 +198,7 @@ def slice_of(ops, k):
     take = [k]
 
     def touch(o):
-        if o['k'] in ('R', 'X', 'W', 'F'):
+        if o['k'] in ('R', 'X', 'W', 'F', 'M', 'V'):
             return {o['s']}
         if o['k'] == 'C':
             return {o['a'], o['b']}
@@ -214,7 +236,7 @@ def slice_of(ops, k):
     return sorted(take)
 
 
-RESULT_KINDS = ('A', 'X', 'W', 'C', 'CLI')
+RESULT_KINDS = ('A', 'X', 'W', 'C', 'CLI', 'M', 'V')
 
 
 def plans_of(spec):
@@ -337,6 +359,10 @@ def describe(o):
         return 'compare slots %d,%d' % (o['a'], o['b'])
     if k == 'F':
         return 'free slot %d' % o['s']
+    if k == 'M':
+        return 'reformat_settings_msa slot %d rename=%d unalign=%d' % (o['s'], o['rename'], o['unalign'])
+    if k == 'V':
+        return 'kalign_check_msa slot %d exit_on_error=%d' % (o['s'], o['strict'])
     if k == 'A':
         return 'kalign() on set %d threads=%d type=%d' % (o['set'], o['n'], o['t'])
     return 'CLI on set %d threads=%d type=%d -> %s' % (o['set'], o['n'], o['t'], o['path'])
